@@ -3,8 +3,29 @@
 // `families`.
 package main
 
-import "polyverif/internal/hx"
+import (
+	"os"
+	"runtime"
+	"runtime/pprof"
+	"time"
+
+	"polyverif/internal/hx"
+)
 
 var families = map[string]func() hx.Family{}
 
-func main() { hx.Main(families) }
+func main() {
+	if p := os.Getenv("VERIF_HEAPPROF"); p != "" { // debugging aid: periodic heap profile
+		go func() {
+			for {
+				time.Sleep(20 * time.Second)
+				runtime.GC()
+				if f, err := os.Create(p); err == nil {
+					pprof.WriteHeapProfile(f)
+					f.Close()
+				}
+			}
+		}()
+	}
+	hx.Main(families)
+}
